@@ -36,6 +36,8 @@ Calias.example.com,www.example.com,120
 'txt.example.com,hello world,30
 :raw.example.com,65280,\001\002\003
 Hsvc.example.com,.,300,,1,alpn=h2|h3;port=8443
+Bsvcb.example.com,.,300,,1,alpn=h2;port=8443
+B_dns.example.com,svc.example.com,300,,0,
 Ssrv.example.com,192.0.2.77,a,443,1,2
 ^1.2.0.192.in-addr.arpa,www.example.com
 Mexample.com,m1
@@ -151,6 +153,11 @@ func c13Setup() {
 					ho.Cache = dnsserver.CacheConfig{Enabled: true, LRUSize: 64}
 					nm += "/cache"
 				}
+				if !cache && tx.name == "normal" {
+					// the cache switched off, its lifetime for weighted answers configured
+					ho.Cache = dnsserver.CacheConfig{Enabled: false, WRSTimeout: 5}
+					nm += "/wrs-timeout"
+				}
 				h, err := kit.OpenHandler(p, b, ho)
 				if err != nil {
 					c13Err = fmt.Errorf("open %s: %w", nm, err)
@@ -172,7 +179,7 @@ type c13Case struct {
 
 var c13Names = []string{".", "com.", "example.com.", "www.example.com.", "WWW.Example.COM.", "x.wild.example.com.", "a!b.wild.example.com.", "sub.example.com.", "deep.er.sub.example.com.",
 	"child.example.com.", "x.child.example.com.", "nope.example.com.", "big.example.com.", "manyns.example.com.", "x.manyns.example.com.", "svc.example.com.", "alias.example.com.", "x.cn.example.com.", "a.", "txt.", "zz.", "a.ns.example.com.",
-	"other.net.", "1.2.0.192.in-addr.arpa.", "net.", "hw.example.com.", "longmx.example.com.", "longns.example.com.", "x.longns.example.com.", "t.example.com.", "localhost.", "nosuchtld."}
+	"other.net.", "1.2.0.192.in-addr.arpa.", "net.", "svcb.example.com.", "_dns.example.com.", "hw.example.com.", "longmx.example.com.", "longns.example.com.", "x.longns.example.com.", "t.example.com.", "localhost.", "nosuchtld."}
 
 func genC13Name(t *rapid.T) string {
 	switch rapid.IntRange(0, 9).Draw(t, "namekind") {
